@@ -146,27 +146,41 @@ inductive FileOp
   | replace (src dst : Nat)   -- os.replace / os.rename: atomic
 deriving Repr, DecidableEq
 
-/-- file system: path id ↦ content (`none` = absent); path 0 is the profile's config file -/
-abbrev FS := Nat → Option Str
+/-- file system with buffered writers: path id ↦ content (`none` = absent; path 0 is the profile's config
+    file), the data a handle has buffered but not yet flushed, and the path the handle's file currently
+    has (an open handle follows its file when the file is renamed).  A crash loses the buffers. -/
+structure FS where
+  files : Nat → Option Str
+  buf : Nat → Str
+  target : Nat → Nat
 
-def fsSet (fs : FS) (p : Nat) (v : Option Str) : FS := fun q => if q = p then v else fs q
+def fsSet (f : Nat → Option Str) (p : Nat) (v : Option Str) : Nat → Option Str := fun q => if q = p then v else f q
+
+/-- flush handle `p`: its buffered data (or, for a torn flush, only `part` of it) reaches its file -/
+def flush (fs : FS) (p : Nat) (data : Str) : FS :=
+  { fs with files := fsSet fs.files (fs.target p) (some (((fs.files (fs.target p)).getD []) ++ data)),
+            buf := fun q => if q = p then [] else fs.buf q }
 
 def applyOp (new : Str) (fs : FS) : FileOp → FS
   | .mkdirs => fs
-  | .openTrunc p => fsSet fs p (some [])
-  | .write p => fsSet fs p (some ((fs p).getD [] ++ new))
-  | .sync _ => fs
-  | .close _ => fs
-  | .replace s d => fsSet (fsSet fs d (fs s)) s none
+  | .openTrunc p => { files := fsSet fs.files p (some []), buf := fun q => if q = p then [] else fs.buf q,
+                      target := fun q => if q = p then p else fs.target q }
+  | .write p => { fs with buf := fun q => if q = p then fs.buf p ++ new else fs.buf q }
+  | .sync p => flush fs p (fs.buf p)
+  | .close p => flush fs p (fs.buf p)
+  | .replace s d => { fs with files := fsSet (fsSet fs.files d (fs.files s)) s none,
+                              target := fun q => if fs.target q = s then d else fs.target q }
 
 def applyOps (new : Str) : FS → List FileOp → FS
   | fs, [] => fs
   | fs, op :: ops => applyOps new (applyOp new fs op) ops
 
-/-- a torn write: only a prefix of the data reached the file -/
-def applyTorn (part : Str) (fs : FS) : FileOp → FS
-  | .write p => fsSet fs p (some ((fs p).getD [] ++ part))
-  | op => applyOp part fs op
+/-- a crash in the middle of an operation: a flush (sync / close) may have written only a prefix `part`
+    of the buffered data; every other operation either happened or did not -/
+def applyTorn (new part : Str) (fs : FS) : FileOp → FS
+  | .sync p => flush fs p part
+  | .close p => flush fs p part
+  | op => applyOp new fs op
 
 /-- the save writes a temporary file completely and then atomically moves it over the config file -/
 def AtomicSave : List FileOp → Bool
